@@ -15,7 +15,7 @@ P49 = "p" * 49
 
 POOLS = {
     "f": [NAN, 0.0, -0.0, 1.0, -1.0, 2.5, INF, -INF, 2.0**53, 2.0**53 + 2, -2.0**60, 1e-7, 1e16, 5e-324],
-    "i": [0, 1, -1, 2, 7, 2**31, -2**31, 2**53 + 1, -(2**53 + 1), 2**63 - 1, -2**63 + 1, -2**63],
+    "i": [0, 1, -1, 2, 7, 2**31, -2**31, 2**53, 2**53 + 1, 2**53 + 2, -(2**53 + 1), 2**63 - 1, 2**63 - 2, -2**63 + 1, -2**63],
     "b": [True, False],
     "s": ["", "a", "b", "ab", "B", "é", "日本", "😀", " a", P49 + "a", P49 + "b", P49, "q" * 70],
     "u": ["", "a", "b", "ab", "B", "é", "日本", " a"],
@@ -35,7 +35,7 @@ POOLS = {
 
 # Small pools (2-3 distinct non-missing values) that make ties and duplicate keys the norm.
 TIGHT = {
-    "f": [NAN, 0.0, -0.0, 1.0, INF], "i": [0, 1, 2**53 + 1], "b": [True, False],
+    "f": [NAN, 0.0, -0.0, 1.0, INF], "i": [0, 1, 2**53, 2**53 + 1], "b": [True, False],
     "s": ["", "a", "b", P49 + "a"], "u": ["", "a", "b"], "d": [None, "1970-01-01", "2020-12-31"],
     "t": [None, "1970-01-01T00:00:00.000001", "2020-12-31T12:00:00"], "tm": POOLS["tm"][:3], "ts": POOLS["ts"][:3],
     "td": [None, 0, 1], "o": [None, "a", "b"], "oi": [None, 1, 2], "ob": [None, True, False], "y": ["a", "b"],
